@@ -433,7 +433,8 @@ let run_case (c : case) =
              | Panic s -> pr "BIND panic # site %s\n" (ns s)
              | OOF -> pr "BIND oof\n"
              | Ok tc ->
-                 pr "PROG %s\n" (hex_encode (prog_s tc.tc_stmts));
+                 (* impl Display for TestCase: the Gallina printer Show.show_prog (the one ShowRoundTrip.v is about), extracted *)
+                 pr "PROG %s\n" (hex_encode (string_of_text (show_prog tc.tc_stmts)));
                  pr "BIND ok\n";
                  (* `signals` is a public field of TestCase: a caller may change a width after binding *)
                  let tc = List.fold_left (fun (tc : testcase) (i, b) ->
